@@ -19,6 +19,12 @@ LEVEL = "model_checking"
 def make_world():
     from vlib import worlds as W
     w = W.mixed_world(2, groups=True, multimappers=True)
+    # feature ids that look like missing values to table-processing libraries
+    ren = {"GB1": "NA", "TB1_1": "null", "TB1_2": "nan"}
+    for g in w["genes"]:
+        g["id"] = ren.get(g["id"], g["id"])
+        for t in g["transcripts"]:
+            t["id"] = ren.get(t["id"], t["id"])
     return w
 
 
